@@ -251,10 +251,19 @@ fn run_tls(cap: usize, n: usize) -> Value {
     .is_ok();
     std::panic::set_hook(prev);
     let (mut len, mut rate) = (0usize, 0i64);
-    res.consume(|mut d| {
-        len = d.by_ref().count();
-        rate = (d.sample_rate() * 1_000_000.0).round() as i64;
-    });
+    let prev2 = std::panic::take_hook();
+    std::panic::set_hook(Box::new(|_| {}));
+    let drained = std::panic::catch_unwind(std::panic::AssertUnwindSafe(|| {
+        res.consume(|mut d| {
+            len = d.by_ref().count();
+            rate = (d.sample_rate() * 1_000_000.0).round() as i64;
+        })
+    }))
+    .is_ok();
+    std::panic::set_hook(prev2);
+    if !drained {
+        len = usize::MAX >> 40; // a drain that panics is data: no model value matches
+    }
     json!({"p": 0, "ev": "tls", "a": [cap, n, panicked.load(SeqCst), joined as i64, len, rate]})
 }
 
@@ -312,14 +321,25 @@ fn run_hammer(cap: usize, rng: &mut rand::rngs::StdRng) -> Value {
     let t0 = std::time::Instant::now();
     let prev = std::panic::take_hook();
     std::panic::set_hook(Box::new(|_| {}));
+    let mut consumer_panics = 0u64;
     while t0.elapsed() < std::time::Duration::from_millis(250) {
-        res.consume(|d| {
-            let _ = d.count();
-        });
+        let r = res.clone();
+        if std::panic::catch_unwind(std::panic::AssertUnwindSafe(move || {
+            r.consume(|d| {
+                let _ = d.count();
+            })
+        }))
+        .is_err()
+        {
+            consumer_panics += 1; // a panic in the code under test is data
+            if consumer_panics > 100 {
+                break;
+            }
+        }
         drains.fetch_add(1, SeqCst);
     }
     stop.store(true, SeqCst);
-    let (mut pushes, mut panics, mut good, mut bad, mut draws) = (0u64, 0u64, vec![], vec![], 0u64);
+    let (mut pushes, mut panics, mut good, mut bad, mut draws) = (0u64, consumer_panics, vec![], vec![], 0u64);
     for h in hs {
         if let Ok((a, b, c, d, e)) = h.join() {
             pushes += a;
